@@ -54,7 +54,19 @@ def tie_world(rng):
         if rng.random() < 0.4:
             for prof in rng.sample(W.PROFILES, rng.randrange(2, 5)):
                 world["hits"][gene].setdefault(prof, rng.choice([20, 30]))
+    # a gene whose identifier holds a run of characters that are not allowed in names (they become underscores,
+    # one for each): its hits are filed under the name it has after that
+    if world["genes"] and rng.random() < 0.3:
+        old = rng.choice(sorted(world["genes"]))
+        raw = old + rng.choice(["(+)x", " [:]y", "=>?z", "(;)"])
+        clean = "".join("_" if ch in ILLEGAL_IN_NAMES else ch for ch in raw)
+        world["genes"] = {(raw if name == old else name): gene for name, gene in world["genes"].items()}
+        if old in world["hits"]:
+            world["hits"] = {(clean if name == old else name): hs for name, hs in world["hits"].items()}
     return {"kind": "world", "world": world, "perm_seed": rng.randrange(1 << 30)}
+
+
+ILLEGAL_IN_NAMES = set("!\"#$%&()*+,:; \r\n\t=>?@[]^`'{|}/ ")
 
 
 def tie_layout(rng):
@@ -188,7 +200,16 @@ def gen_input(rng, kind):
         return tie_world(rng)
     if kind == "layout":
         return tie_layout(rng)
+    if kind == "annotate":
+        # analysis modules, in the order they ran, all marking the same stretch of the record
+        return {"kind": "annotate", "modules": rng.sample(ANALYSIS_MODULE_NAMES, rng.randrange(3, 8)),
+                "perm_seed": rng.randrange(1 << 30)}
     raise ValueError(kind)
+
+
+ANALYSIS_MODULE_NAMES = ["antismash.modules." + name for name in (
+    "lanthipeptides", "thiopeptides", "lassopeptides", "sactipeptides", "tta", "nrps_pks", "t2pks", "smcog_trees",
+    "active_site_finder", "pfam2go", "cluster_compare", "clusterblast")]
 
 
 # ---------------------------------------------------------------------------------------------
@@ -231,6 +252,8 @@ def input_ties(case) -> dict:
                 "n_rules": len(world["rules"])}
     if kind == "ruleset":
         return {"rules_limited_by_name": len(case["names"]) >= 2, "rules_limited_by_category": bool(case["categories"])}
+    if kind == "annotate":
+        return {"analysis_modules_marking_the_same_stretch": len(case["modules"])}
     if kind == "layout":
         protos = case["protoclusters"]
         ext = [str(p["extent"]) for p in protos]
